@@ -55,6 +55,7 @@ open Dispatcher DispatchScript in
 structure Sess where
   disp : Dispatcher.St DispatchScript.ScriptSt := ⟨none, none, false, ⟨[]⟩⟩
   strm : Stream.FState Nat := { ds := 0 }
+  tmr : Timer.St := { duration := 100000 }
   tabs : List Tables := []
   insts : List (String × String × Proto.Inst) := []      -- instance id, protocol name, state
 
@@ -308,6 +309,29 @@ def step (ss : Sess) (line : String) : Sess × String :=
     let res := match r.1 with | .ok 1 => "file" | .ok _ => "backup" | .error _ => "error"
     let bk := if r.2.backup == fs.backup then "kept" else "overwritten"
     (ss, s!"{res} {bk}")
+  -- release timers (event machine)
+  | ["tm_new", dur, style] =>
+    match dur.toInt? with
+    | some d => ({ ss with tmr := { duration := d, style := if style == "toggle" then .toggleReplaces else .sameObject } }, "ok")
+    | none => (ss, "bad-op")
+  | "tm" :: ev =>
+    let e : Option Timer.Ev := match ev with
+      | ["frame", k, t] => do let k ← k.toNat?; let t ← t.toNat?; pure (Timer.Ev.frame k t)
+      | ["rep"] => some Timer.Ev.rep
+      | ["adv", d] => d.toInt?.map Timer.Ev.advance
+      | _ => none
+    match e with
+    | some e =>
+      let n0 := ss.tmr.outs.length
+      let st := Timer.step ss.tmr e
+      let news := st.outs.drop n0
+      let showO : Timer.Out → String
+        | .released i k => s!"released {i}/{k}"
+        | .decoded i k => s!"decoded {i}/{k}"
+      let o2s (o : Option Nat) : String := match o with | some i => toString i | none => "-"
+      let armed := st.objs.filter (fun o => o.start.isSome) |>.map (fun o => toString o.id)
+      ({ ss with tmr := st }, s!"{"; ".intercalate (news.map showO)} | disp {o2s st.dispLast} dec {o2s st.decLast} tq [{",".intercalate (st.timerQ.map toString)}] armed [{",".intercalate armed}]")
+    | none => (ss, "bad-op")
   -- pronto
   | "pronto_enc" :: freq :: kind :: ws =>
     match freq.toInt? with
